@@ -45,8 +45,23 @@ MC_Shape ==
               own |-> {"AA__F", "AA__INC", "AA__LAG_F", "AA__LAG_P", "AA__P", "AA__PAY", "AA__S", "AA__Z",
                        "BB__F", "BB__INC", "BB__LAG_F", "BB__PAY", "BB__Q", "BB__R", "t"}]]
 
+(* Block bodies (equations + exogenous section) and their variants by settings lines:              *)
+(*   X   MaxTime = 4                         Xc  MaxTime = 4, Err_Tolerance = 1e-3  (coarse)           *)
+(*   Xf  MaxTime = 4, Err_Tolerance = 1e-11 (fine)                                                      *)
+(*   X0  no settings line (horizon 0, default tolerance)   Xt  Err_Tolerance = 1e-3 only (horizon 0)    *)
+(* x, LAG_x, g carry the same NAME in both bodies; x and g are defined differently                     *)
+MC_Body ==
+    [A |-> [vars |-> {"LAG_x", "a", "g", "t", "x", "y"}, early |-> {"g"}, func |-> FALSE],
+     B |-> [vars |-> {"LAG_x", "g", "t", "v", "w", "x"}, early |-> {"g"}, func |-> TRUE]]
+MC_Variant(body, mt, tol) ==
+    [vars |-> MC_Body[body].vars, early |-> MC_Body[body].early, func |-> MC_Body[body].func,
+     horizon |-> IF mt THEN 4 ELSE 0, mtLine |-> mt, tolLine |-> (tol # "default"), tol |-> tol]
 MC_BlockInfo ==
-    [A |-> [vars |-> {"LAG_x", "a", "g", "t", "x", "y"}, early |-> {"g"}, func |-> FALSE, horizon |-> 4],
-     B |-> [vars |-> {"LAG_x", "g", "t", "v", "w", "x"}, early |-> {"g"}, func |-> TRUE,  horizon |-> 4]]
-     \* x, LAG_x, g carry the same NAME in both blocks; x and g are defined differently
+    [A  |-> MC_Variant("A", TRUE, "default"),  B  |-> MC_Variant("B", TRUE, "default"),
+     Ac |-> MC_Variant("A", TRUE, "coarse"),   Bc |-> MC_Variant("B", TRUE, "coarse"),
+     Af |-> MC_Variant("A", TRUE, "fine"),     Bf |-> MC_Variant("B", TRUE, "fine"),
+     A0 |-> MC_Variant("A", FALSE, "default"), B0 |-> MC_Variant("B", FALSE, "default"),
+     At |-> MC_Variant("A", FALSE, "coarse"),  Bt |-> MC_Variant("B", FALSE, "coarse")]
+MC_BlocksQ == {"A", "Ac", "B", "B0"}                     \* quick: with / without each line, coarse vs default
+MC_BlocksT == {"A", "Ac", "Af", "B", "B0", "Bc", "Bt"}   \* thorough: also fine, tolerance line without MaxTime
 =============================================================================
